@@ -8,6 +8,9 @@
     Tx.TaprootSigHash        lib/btc/taproot.go    → `taprootSigHash`    (BIP341/342, cache threaded)
     SigChecker.CheckSchnorrSignature  lib/script/checker.go → `schnorrPlan` / `checkSchnorrSignature`
     delSig                   lib/script/script.go  → `delSig`            (FindAndDelete of one signature)
+                             (the code after fix acaf95d6: the pattern is the canonical push of the signature,
+                              direct / PUSHDATA1 / PUSHDATA2 / PUSHDATA4 — compared with the real delSig through
+                              the hook script.VerifDelSig on every run)
 
   * The per-transaction cache (`TxVerVars.hashPrevouts/hashSequence/hashOutputs/tapSingleHashes/
     tapOutSingleHash`) is EXPLICIT STATE: every call takes a `Cache` and returns the new one. Each call
